@@ -8,6 +8,8 @@ import (
 
 	"github.com/gauss-project/aurorafs/pkg/aurora"
 	"github.com/gauss-project/aurorafs/pkg/boson"
+	cipb "github.com/gauss-project/aurorafs/pkg/chunkinfo/pb"
+	"github.com/gauss-project/aurorafs/pkg/p2p/protobuf"
 	"github.com/gauss-project/aurorafs/pkg/p2p"
 )
 
@@ -76,4 +78,33 @@ func openStream(from boson.Address, h p2p.HandlerFunc) p2p.Stream {
 		server.w.close()
 	}()
 	return client
+}
+
+// DeliverChunkInfoResp hands the node a chunk-info response of peer `from` for file root (the peer
+// reports its own availability vector vec) through the node's own protocol handler; it returns
+// when the handler has returned.
+func (n *Node) DeliverChunkInfoResp(from, root boson.Address, vec []byte) error {
+	var h p2p.HandlerFunc
+	for _, ss := range n.CI.Protocol().StreamSpecs {
+		if ss.Name == "chunkinforesp" {
+			h = ss.Handler
+		}
+	}
+	if h == nil {
+		return errors.New("nodelite: no chunkinforesp stream")
+	}
+	a, b := newHalf(), newHalf()
+	client := &pipeStream{r: b, w: a}
+	server := &pipeStream{r: a, w: b}
+	w := protobuf.NewWriter(client)
+	if err := w.WriteMsgWithContext(context.Background(), &cipb.ChunkInfoResp{
+		RootCid:  root.Bytes(),
+		Target:   from.Bytes(),
+		Req:      n.Addr.Bytes(),
+		Presence: map[string][]byte{from.String(): vec},
+	}); err != nil {
+		return err
+	}
+	_ = client.Close()
+	return h(context.Background(), p2p.Peer{Address: from, Mode: aurora.NewModel().SetMode(aurora.FullNode)}, server)
 }
